@@ -92,6 +92,11 @@ func (c *RawHTTPResponder) writeResponse() error {
 		}
 	}
 
+	// http.Response.Write takes "Connection: close" from the Close field, not from the header map.
+	if strings.EqualFold(c.response.Header.Get("Connection"), "close") {
+		c.response.Close = true
+	}
+
 	if err := c.response.Write(c.writer); err != nil {
 		return err
 	}
